@@ -25,6 +25,9 @@ ROUTER = "repid.router.Router"
 
 
 def run(ctx: Ctx) -> None:
+    from .shared import connection_propagation
+
+    connection_propagation(ctx, "R-C11-WIRING")  # the worker / queue / handle chain stays on one connection
     wiring(ctx)
     filters(ctx)
     sync(ctx)
@@ -112,6 +115,30 @@ def _topic_env(mismatch: bool, overdue: bool | None = False, extra=None):
     return {"*topic": fn}
 
 
+def redis_prefix_terminator(ctx: Ctx, rule: str):
+    """The Redis consumer selects its messages by name prefix `<topic>:`; the ':' terminator is what keeps topic 'send' from matching 'send_digest:<id>'
+    (names may contain '_' and '-', never ':')."""
+    f = ctx.func(f"{C.REDIS_CONS}.__get_message_name")
+    fetch = ctx.func(f"{C.REDIS_CONS}.__fetch_message_name")
+    fetch_params = [p.arg for p in fetch.params()]
+    pfx = fetch_params[2]  # the prefixes parameter of the fetch (2nd after self), whatever it is called
+    fm0 = [c for c in ast.walk(f.node) if isinstance(c, ast.Call) and (dotted(c.func) or "").endswith("__fetch_message_name")]
+    nt = [C.inline_locals(f, C.arg(fm0[0], 1, pfx))] if len(fm0) == 1 and C.arg(fm0[0], 1, pfx) is not None else []
+    ok = False
+    if len(nt) == 1 and isinstance(nt[0], ast.Call) and dotted(nt[0].func) == "tuple" and nt[0].args and isinstance(nt[0].args[0], (ast.GeneratorExp, ast.ListComp)):
+        ge = nt[0].args[0]
+        v = ge.generators[0].target
+        e = ge.elt
+        ok = isinstance(v, ast.Name) and isinstance(e, ast.BinOp) and isinstance(e.op, ast.Add) and dotted(e.left) == v.id and C.is_const(e.right, ":") \
+            and dotted(ge.generators[0].iter) == [p.arg for p in f.params()][2] and not ge.generators[0].ifs
+    elif len(nt) == 1 and isinstance(nt[0], ast.JoinedStr):
+        ok = False
+    ctx.check(ok, rule, f, "redis: topic prefixes end with the ':' separator", "tuple(x + ':' for x in topics)",
+              f"redis __get_message_name builds the prefixes as {unparse(nt[0]) if nt else '?'}: without the ':' terminator a worker with actor 'send' also takes 'send_digest:<id>' "
+              "messages it has no actor for", instance="redis prefix terminator")
+    return f, fetch_params, pfx
+
+
 def filters(ctx: Ctx, rule="R-C11-FILTER") -> None:
     # ---------- in-memory
     f = ctx.func(f"{C.INMEM_CONS}.__consume_normal")
@@ -133,24 +160,7 @@ def filters(ctx: Ctx, rule="R-C11-FILTER") -> None:
     ctx.check(len(tests) == 1 and "msg.key.topic" in unparse(tests[0].ast), rule, f, "in-memory filter compares the message's topic", "msg.key.topic",
               f"in-memory topic filter is `{unparse(tests[0].ast) if tests else '?'}`", instance="in-memory filter operand")
     # ---------- redis
-    f = ctx.func(f"{C.REDIS_CONS}.__get_message_name")
-    fetch = ctx.func(f"{C.REDIS_CONS}.__fetch_message_name")
-    fetch_params = [p.arg for p in fetch.params()]
-    pfx = fetch_params[2]  # the prefixes parameter of the fetch (2nd after self), whatever it is called
-    fm0 = [c for c in ast.walk(f.node) if isinstance(c, ast.Call) and (dotted(c.func) or "").endswith("__fetch_message_name")]
-    nt = [C.inline_locals(f, C.arg(fm0[0], 1, pfx))] if len(fm0) == 1 and C.arg(fm0[0], 1, pfx) is not None else []
-    ok = False
-    if len(nt) == 1 and isinstance(nt[0], ast.Call) and dotted(nt[0].func) == "tuple" and nt[0].args and isinstance(nt[0].args[0], (ast.GeneratorExp, ast.ListComp)):
-        ge = nt[0].args[0]
-        v = ge.generators[0].target
-        e = ge.elt
-        ok = isinstance(v, ast.Name) and isinstance(e, ast.BinOp) and isinstance(e.op, ast.Add) and dotted(e.left) == v.id and C.is_const(e.right, ":") \
-            and dotted(ge.generators[0].iter) == [p.arg for p in f.params()][2] and not ge.generators[0].ifs
-    elif len(nt) == 1 and isinstance(nt[0], ast.JoinedStr):
-        ok = False
-    ctx.check(ok, rule, f, "redis: topic prefixes end with the ':' separator", "tuple(x + ':' for x in topics)",
-              f"redis __get_message_name builds the prefixes as {unparse(nt[0]) if nt else '?'}: without the ':' terminator a worker with actor 'send' also takes 'send_digest:<id>' "
-              "messages it has no actor for", instance="redis prefix terminator")
+    f, fetch_params, pfx = redis_prefix_terminator(ctx, rule)
     fm = [c for c in ast.walk(f.node) if isinstance(c, ast.Call) and (dotted(c.func) or "").endswith("__fetch_message_name")]
     ok = len(fm) == 1 and C.arg(fm[0], 1, pfx) is not None and dotted(C.arg(fm[0], 0, fetch_params[1])) == [p.arg for p in f.params()][1]
     ctx.check(ok, rule, f, "redis: fetch filtered by those prefixes", "__fetch_message_name(full_queue_name, new_topics, ...)", "redis __get_message_name does not pass the prefixes to the fetch", instance="redis prefixes used")
@@ -213,6 +223,9 @@ def filters(ctx: Ctx, rule="R-C11-FILTER") -> None:
     r = flow.reach_under(g, _topic_env(False, extra=paused), flow.NORMAL_KINDS)
     put = [g.nodes[i] for i in r if g.nodes[i].kind == "call" and (g.nodes[i].callee or "") == "self.queue.put"]
     ctx.check(len(put) == 1, rule, f, "rabbitmq: own topic -> handed to the local queue", "queue.put", "rabbitmq on_new_message does not hand out a message of its own topic", instance="rabbitmq own topic")
+    from .brokers import rabbit_bounce_rules
+
+    rabbit_bounce_rules(ctx, rule)
     tests = [t for t in g.nodes if t.kind == "test" and _mentions(t.ast, "topics")]
     ctx.check(len(tests) == 1 and unparse(tests[0].ast) == "self.topics and msg_topic not in self.topics", rule, f, "rabbitmq filter compares the header topic", "msg_topic not in self.topics",
               f"rabbitmq topic filter is {[t.label for t in tests]}", instance="rabbitmq filter operand")
@@ -292,7 +305,7 @@ def sync(ctx: Ctx, rule="R-C11-SYNC") -> None:
     ctx.check(ok, rule, ft, "_forget_topic discards the name from the previous queue's set", "topics_by_queue[previous.queue].discard(name)", "_forget_topic does not remove the name from the previous queue", instance="forget: discard")
     ok = bool(dels) and bool(disc) and all(d.id in flow.reach(g, [disc[0].id], flow.NORMAL_KINDS) for d in dels)
     guards = [t for t in g.nodes if t.kind == "test" and "topics_by_queue" in C.utext(ft, t.ast)]
-    ok = ok and any(isinstance(t.ast, ast.UnaryOp) and isinstance(t.ast.op, ast.Not) for t in guards)
+    ok = ok and any(C.emptiness_test(t.ast) is not None and "topics_by_queue" in C.utext(ft, C.emptiness_test(t.ast)) for t in guards)
     ctx.check(ok, rule, ft, "a queue left without topics is removed", "del topics_by_queue[q] when its set became empty",
               "_forget_topic leaves a queue with an empty topic set behind: the worker still opens a consumer for it and an empty topic set means 'no filter', so it takes every "
               "message of that queue (executing moved names through the wrong queue, crashing on foreign ones)", instance="forget: empty set removed")
